@@ -168,6 +168,22 @@ def foo(n: size, x: R[16], y: R[1]):
         x[k + CfgB.a] = 3.0
         CfgB.a = 2
 """),
+    ("padded_extents_divisibility", """
+@proc
+def foo(n: size, x: R[n]):
+    assert n <= 6
+    t: R[n + 4]
+    u: R[n + 8]
+    v: R[4 * n]
+    for i in seq(0, n + 4):
+        t[i] = 1.0
+    for i in seq(0, n + 8):
+        u[i] = 2.0
+    for i in seq(0, 4 * n):
+        v[i] = 3.0
+    for i in seq(0, n):
+        x[i] = t[i + 4] + u[i + 8] + v[4 * i + 3]
+"""),
     ("mult_dim_transposes", """
 @proc
 def foo(n: size, m: size, a: [R][n, m], b: R[n, m], c: R[4]):
